@@ -26,6 +26,7 @@ def directed_cases():
             cases.append(("soup", {"cls": cls}, "d:soup:%s" % cls))
     for k in range(10):
         cases.append(("method", {"cls": "SmoothStronglyConvexFunction", "mode": "single", "box": True}, "d:ssc%d" % k))
+    cases.append(("big", {"N": 11}, "d:big"))
     return cases
 
 
